@@ -124,6 +124,8 @@ class Ctx:
             self.soft.setdefault((f['block'], f['slot'], f['event'], f['iter']), []).append(f)
         self.lockstep_bad = None
         self.caller_u0 = None
+        self.shadow = None
+        self.shadow_recs = []
         self.work = {}  # id(problem) -> counts
         if sc.get('spy_stats'):
             self.stat_writes = []
@@ -231,7 +233,41 @@ def on_post_step(ctx, S, ln):
     ctx.log.add('val', ctx.block, S.status.slot, 'post_step', L.time, L.dt, S.status.iter, bdigest(L.u[0]), bdigest(L.uend), L.status.residual)
 
 
-HANDLERS = {'pre_step': on_pre_step, 'post_step': on_post_step, 'pre_iteration': on_pre_iteration}
+def shadow_check(name):
+    def h(ctx, S, ln):
+        if ctx.shadow is None or ln != 0:
+            return
+        L = S.levels[0]
+        if any(u is None for u in L.u) or L.status.residual is None:
+            return
+        val, full, scale = ctx.shadow.residual(L, 0, L.params.residual_type)
+        ctx.shadow_recs.append(
+            {
+                'at': name,
+                'block': ctx.block,
+                'slot': S.status.slot,
+                'iter': S.status.iter,
+                'reported': float(L.status.residual),
+                'shadow': val,
+                'full': full,
+                'S': scale,
+                'sweep': L.status.sweep,
+                'done': bool(S.status.done),
+                'force_done': bool(S.status.force_done),
+                'seq': ctx.seq,
+                'time': L.time,
+            }
+        )
+
+    return h
+
+
+def on_post_step_shadow(ctx, S, ln):
+    on_post_step(ctx, S, ln)
+    shadow_check('post_step')(ctx, S, ln)
+
+
+HANDLERS = {'pre_step': on_pre_step, 'post_step': on_post_step_shadow, 'pre_iteration': on_pre_iteration, 'post_iteration': shadow_check('post_iteration')}
 
 
 def apply_soft(ctx, S, faults):
@@ -575,6 +611,7 @@ class Trace:
 def _reset_ctx_for_leg(ctx):
     ctx.block = -1
     ctx.events, ctx.attempts, ctx.cur, ctx.blocks, ctx.comm, ctx.cc, ctx.problems = [], [], {}, [], [], [], []
+    ctx.shadow_recs = []
     ctx.lockstep_bad = None
     if hasattr(ctx, 'stat_writes'):
         ctx.stat_writes = []
@@ -584,7 +621,7 @@ class LegView:
     """The observations of one run() call (one leg) -- same attribute names the oracles use on Ctx."""
 
     def __init__(self, ctx):
-        for k in ('events', 'attempts', 'blocks', 'comm', 'cc', 'problems', 'lockstep_bad', 'faults', 'sc', 'res', 'log'):
+        for k in ('events', 'attempts', 'blocks', 'comm', 'cc', 'problems', 'lockstep_bad', 'faults', 'sc', 'res', 'log', 'shadow', 'shadow_recs'):
             setattr(self, k, getattr(ctx, k))
         if hasattr(ctx, 'stat_writes'):
             self.stat_writes = ctx.stat_writes
@@ -603,6 +640,10 @@ def run(sc, res=None, log=None, extra_hooks=(), counting=False, keep_ctrl=False)
     if sc.get('spy_stats'):
         install_stats_spy()
     ctrl = build(sc, ctx, extra_hooks=extra_hooks, counting=counting)
+    if sc.get('shadow'):
+        from sim.physics import Shadow
+
+        ctx.shadow = Shadow(sc)
     rc = sc['config']['run']
     ends = list(rc.get('legs') or []) + [rc['Tend']]
     t_start = rc['t0']
